@@ -21,10 +21,13 @@ PARTIAL = ['the Lean grammar (TexSoupModel/Grammar.lean) and the Python document
            'rebuilds a grammar document from its tokens and tree (untrusted search) and evaluates the hypotheses of '
            'theorem C02.cert_sound / C02.document_parses on it with the compiled definitions, so the theorem '
            'demonstrably applies to that input (counts: cert_* statistics and the rule text of the run)',
-           'restrictions of the proved grammar: environment names are single text tokens; fixed-signature commands '
-           'take no continuation arguments',
+           'restriction of the proved grammar: environment names are single text tokens (the reader accepts any brace '
+           'group after \\begin / \\end and compares strip of its serialised contents); argument runs are described '
+           'completely, for open and for fixed signatures, including the continuation argument `\\section{a}[b]` that '
+           'read_args takes in its second pass (Gram.runOK, example C02.exSection)',
            'the converse is proved as well (C02.parse_sound / grammar_exhaustive, TexSoupProofs/Sound): every strict parse '
-           'whose tree is representable (no made-up arguments, fixed signatures as declared, one-token `{name}` groups, no '
+           'whose tree is representable (no made-up arguments, a fixed-signature command has all its required brace groups – '
+           'only a command cut off by the end of input is excluded –, one-token `{name}` groups, no '
            'backslash at the very end) is treeD of a well-formed document with exactly the input\'s tokens – every '
            'frame condition of the grammar, including the look-ahead clause for an argument-less command in front of a '
            'brace group in a math-mode environment body (Gram.peekCond_of_peek: derived from the success of that very '
